@@ -129,8 +129,15 @@ Print Assumptions C17_connect_by_name.
        DSAP whose peer filter admits the source, or to none (AddrMain.datagram_outcome); sendto queues exactly
        (dest, own address, message) at the tail; collect takes the head of a queue of a socket bound at that SAP;
        the peer dispatches exactly the collected PDU; recvfrom returns the head.
-       PARTIAL: the end-to-end order statement is given as these queue-discipline steps, not as one theorem over
-       traces; that a UI PDU in a send queue still carries the socket's address is shown at sendto time only. --- *)
+       In every reachable state a datagram waiting in a receive queue is addressed to that socket's address and a
+       datagram waiting in a send queue carries that socket's address as source (C17_datagram_queues).
+       PARTIAL: the end-to-end order statement is given as these queue-discipline steps (append at the tail
+       unchanged, take from the head unchanged, same PDU across the link), not as one theorem over traces. --- *)
+Theorem C17_datagram_queues : forall ops sd i s p, get_sock (reach ops sd) i = Some s -> s_type s = TLdl ->
+  (In p (s_recvq s) -> exists d sa data, p = PUI d sa data /\ s_addr s = Some d) /\
+  (In p (s_sendq s) -> exists d data a, p = PUI d a data /\ s_addr s = Some a).
+Proof. exact datagram_queues_all. Qed.
+Print Assumptions C17_datagram_queues.
 Theorem C17_datagram_dispatch_partial : forall ops sd d sa data c' r, dispatch (reach ops sd) (PUI d sa data) = (c', r) ->
   datagram_outcome (reach ops sd) d sa data c' r.
 Proof. exact datagram_dispatch_all. Qed.
